@@ -4,6 +4,12 @@ judged by Trace_SubFS.tla."""
 import vtlib
 from checks import datacheck
 
+META = dict(
+   text='TLC exhausts the transcribed Path::level_valid scan (component iterator, level counter) against the lexical-containment reference for every path string over {/ . a} up to length 8 (thorough: {/ . a b} to 9): accepted => stays inside (NoEscape) and stays inside => accepted (NoFalseRefusal). The real new_subfs() over a recording underlay is executed for every string in scope, every one- and two-path operation, plus long paths around the PATH_MAX limit and seeded random strings; each recorded (rejected | forwarded path) is judged by the reference and by the transcribed PathCat in a trace specification.',
+   note='Containment is lexical (symbolic links on the underlay are outside the statement). TLC result holds for the stated string scope; longer strings only through seeded random cases.',
+   technique='TLA+ transcription + TLC exhaustive small-scope equivalence with lexical-containment reference; trace validation of real outputs (TLC) per operation',
+   design='3/C20')
+
 def run(ctx):
     t = ctx.tier
     r = ctx.mc('SubFS', f'MC_SubFS_{t}.cfg', timeout=900)
